@@ -1,5 +1,5 @@
 """Property id -> rules, and the texts that go to MANIFEST / evidence."""
-from .rules import optab, sign, role, memo, state, reord
+from .rules import optab, sign, role, memo, state, reord, handles
 
 PROPS = dict()
 NOT_BUILT = dict()
@@ -136,6 +136,25 @@ prop('C07', [
     'the case analysis of swap (which grandchildren go where), monotone '
     'size under sifting, that _sort_to_order reaches the target.',
     'typestate / pairing analysis on the swap loops')
+prop('C08', [
+    handles.r_handles,
+    state.r_writers,
+],
+    'Function.__init__ takes exactly one count on every normal path and '
+    'none before a rejection; __del__ gives back exactly one, once '
+    '(guard and clear); a copy of a handle is built by the acquiring '
+    'constructor; no other callable of dd.autoref changes counts except '
+    'the two pass-throughs; every return of every dd.autoref callable '
+    'whose value derives from a node-returning call on the integer '
+    'manager passes through _wrap / Function / _map_container(_wrap); '
+    'copies are wrapped by the target manager; the parser only sees the '
+    'integer manager; dd.autoref never writes manager tables; the '
+    'shutdown check releases the terminal and collects before it looks '
+    'for counts.',
+    "interplay with Python's finalisation order; exact counts over "
+    'histories.',
+    'ownership typestate on handle methods; escape analysis of raw node '
+    'values over the resolved call graph')
 prop('C09', [
     reord.r_reord,
 ],
